@@ -514,7 +514,7 @@ func (fr *Frame) enterLoop(l *loopInfo, ins []edgeIn, ci *cfgInfo) *State {
 		vc.needRerun = true
 	}
 	for _, k := range sortedKeys(mod) {
-		vc.getMem(st, k, vc.memSorts[k])
+		vc.getMem(st, k, mod[k])
 		st.mem[k] = vc.newMemVersion(k)
 	}
 	if len(mod) > 0 || !known {
@@ -553,12 +553,13 @@ func (fr *Frame) loopBack(l *loopInfo, from *ssa.BasicBlock, st *State) {
 	// discovery of modified keys
 	if entry := vc.loopEntry[lk]; entry != nil {
 		if vc.loopMod[lk] == nil {
-			vc.loopMod[lk] = map[string]bool{}
+			vc.loopMod[lk] = map[string]string{}
 		}
 		for k, v := range st.mem {
 			if ev, ok := entry.mem[k]; !ok || ev != v {
-				if !vc.loopMod[lk][k] {
-					vc.loopMod[lk][k] = true
+				if _, have := vc.loopMod[lk][k]; !have {
+					vc.loopMod[lk][k] = vc.memSorts[k]
+					vc.needRerun = true
 				}
 			}
 		}
